@@ -579,6 +579,81 @@ def likelihood_list(tree, meth):
     return a, b
 
 
+# ---------------------------------------------------------------------------------------------- property getters
+
+_INPLACE_OK = {"requires_grad_"}        # not a value write; (not used by any getter today)
+_MUTATING_CALLS = {"setattr", "delattr", "initialize", "load_state_dict", "register_parameter", "register_buffer",
+                   "register_prior", "register_constraint", "append", "extend", "update", "pop", "clear", "insert",
+                   "remove", "setdefault", "fill_diagonal_", "set_", "copy_", "zero_", "fill_"}
+
+
+def _alias_root(e, alias):
+    """source text of the state a (possibly local) expression aliases: local names are followed through plain
+    re-bindings (`x = self.a.b`, views), anything else is named by its own text."""
+    seen = 0
+    while seen < 20:
+        seen += 1
+        if isinstance(e, ast.Name) and e.id in alias:
+            e = alias[e.id]
+            continue
+        if isinstance(e, ast.Subscript):
+            e = e.value
+            continue
+        if isinstance(e, ast.Call) and isinstance(e.func, ast.Attribute) and e.func.attr in (_SHAPE_METHODS | {"detach", "data"}):
+            e = e.func.value
+            continue
+        if isinstance(e, ast.Attribute) and e.attr == "data":
+            e = e.value
+            continue
+        break
+    return _src(e)
+
+
+def getter_writes(fn):
+    """state writes performed by the body of a property getter, in source order (names of what is written).  A getter is
+    an *observation*: assignments to attributes / items, augmented assignments (in place for tensors, also through a local
+    alias), in-place tensor methods (`x.add_(…)`), `del`, and the mutating calls of `_MUTATING_CALLS` are writes."""
+    alias, writes = {}, []
+    for node in ast.walk(fn):
+        if isinstance(node, ast.Assign) and len(node.targets) == 1 and isinstance(node.targets[0], ast.Name):
+            alias.setdefault(node.targets[0].id, node.value)
+    for node in ast.walk(fn):
+        if isinstance(node, ast.AugAssign):
+            writes.append(_alias_root(node.target, alias))
+        elif isinstance(node, (ast.Assign, ast.AnnAssign)):
+            tgts = node.targets if isinstance(node, ast.Assign) else [node.target]
+            for t in tgts:
+                for u in (t.elts if isinstance(t, (ast.Tuple, ast.List)) else [t]):
+                    if isinstance(u, (ast.Attribute, ast.Subscript)):
+                        writes.append(_alias_root(u, alias))
+        elif isinstance(node, ast.Delete):
+            writes += [_alias_root(t, alias) for t in node.targets]
+        elif isinstance(node, (ast.Global, ast.Nonlocal)):
+            writes += list(node.names)
+        elif isinstance(node, ast.Call):
+            nm = _call_name(node)
+            if nm is None:
+                continue
+            inplace = nm.endswith("_") and not nm.startswith("_") and nm not in _INPLACE_OK
+            if inplace or nm in _MUTATING_CALLS:
+                recv = node.func.value if isinstance(node.func, ast.Attribute) else (node.args[0] if node.args else node)
+                writes.append(_alias_root(recv, alias))
+    return writes
+
+
+def property_getters(trees):
+    """[(Class.name, [writes…])] for every `@property` getter of every top-level class of the given modules."""
+    out = []
+    for tree in trees:
+        for c in tree.body:
+            if not isinstance(c, ast.ClassDef):
+                continue
+            for f in c.body:
+                if isinstance(f, ast.FunctionDef) and any(_is_name(d, "property") for d in f.decorator_list):
+                    out.append((f"{c.name}.{f.name}", getter_writes(f)))
+    return sorted(out)
+
+
 # ---------------------------------------------------------------------------------------------- emit
 
 _CONDS = {"call": "call.isSome", "sizematch": "stored.size = n"}
@@ -597,6 +672,11 @@ def _mat(e):
     if isinstance(e, tuple):
         return f"({_mat(e[1])}).add ({_mat(e[2])})"
     return e
+
+
+def _lstr(x):
+    """Lean string literal"""
+    return '"' + x.replace("\\", "\\\\").replace('"', '\\"').replace("\n", " ") + '"'
 
 
 def _route(d, with_noise):
@@ -628,6 +708,7 @@ def render(repo):
     mti = multitask(mt)
     call_n, call_p = likelihood_list(ll, "__call__")
     fwd_n, fwd_p = likelihood_list(ll, "forward")
+    getters = property_getters([nm, gl, mt, ll])
 
     def kron(order):
         if order == ("eye_lt", "task_var_lt"):
@@ -636,7 +717,8 @@ def render(repo):
     o_il, o_nil = mti["orders"]
     facts = {"fixed_forward": fixed, "homo_forward": homo, "marginal": marg, "fixed_forwards_noise": [fwd1, fwd2],
              "multitask_orders": [list(o_il), list(o_nil)], "list_call": [call_n, call_p], "list_forward": [fwd_n, fwd_p],
-             "log_marginal_clamp": clamp}
+             "log_marginal_clamp": clamp, "property_getters": [[g, w] for g, w in getters]}
+    getters_lean = ",\n   ".join(f"({_lstr(g)}, [{', '.join(_lstr(x) for x in w)}])" for g, w in getters)
     text = f"""/-
 GENERATED by harness/translate/g7_noise_models.py from $VERIF_REPO/gpytorch/likelihoods/
 (noise_models.py, gaussian_likelihood.py, multitask_gaussian_likelihood.py, likelihood_list.py) — do not edit.
@@ -714,6 +796,11 @@ def listForwardRoute {{L A N : Type}} (liks : List L) (args : List A) (noise : O
   | none => {_route(fwd_p, False)}
   | some ns =>
     {_route(fwd_n, True)}
+
+/-- every `@property` getter of the classes of the four files, with the state writes its body performs (assignments to
+attributes / items, augmented assignments also through a local alias, in-place tensor methods, mutating calls). -/
+def propertyGetters : List (String × List String) :=
+  [{getters_lean}]
 
 end Gen.NoiseModels
 """
